@@ -91,6 +91,11 @@ CHECKS = {
    note="Archive damage is stored-byte / hostile-peer fault injection at the end of simulated histories; v1 archives and cross-version upgrade imports are not driven. Sampling over histories, enumeration over the damage kinds per run.",
    tech="deterministic simulation: seeded account histories, export/import round trip against the sequential model, fault injection on archive entries with a directory-tree oracle"),
 
+ "C19": dict(cat="exploration", design="DESIGN.md section 6 C19",
+   text="The multi-device world (2-3 devices + real server) starts entirely on the file-system backend; at seeded positions of seeded histories (edits of all kinds, folders with flags / descriptions, deleted folders, trusted devices, external attachments, offline spans, syncs) a device signs out, upgrade_accounts runs as a dry run (the data directory must stay byte-for-byte identical) and for real (keep_stale_files drawn), the device reopens on the database backend and the history continues with the ordinary sync traffic; in a third of the runs the stopped server's storage is upgraded (server layout) and restarted on sqlite. At each upgrade: SyncStatus per log (root, length) before == after; served account == model == replay(log) == persisted vault; trusted devices and external blobs unchanged; a device that equalled its server before the upgrade syncs successfully afterwards and still equals it.",
+   note="One account per data directory (several accounts per directory are not generated); preferences and the server-origin list are not populated by the harness, so their preservation is not observed; 'same history on either backend gives the same account' is decided by C01/C06 (both backends against one model). Sampling only.",
+   tech="deterministic simulation: multi-device world with upgrade steps at seeded positions (synced / unsynced state, client and server layouts), before/after oracles and continued sync traffic"),
+
 }
 
 NOT_YET = {
